@@ -42,8 +42,8 @@ Judge(r) ==
   LET sc0 == r.scn
       x == Expected(sc0)
       shape == ShapeOf(sc0, x)
-  IN IF r.obs.kind = "probe" THEN [ok |-> Robust(sc0), sig |-> [class |-> "probe", shape |-> shape, noise |-> "-"]]
-     ELSE IF r.obs.kind # "timers" THEN [ok |-> FALSE, sig |-> [class |-> "kind:" \o r.obs.kind, shape |-> shape, noise |-> "-"]]
+  IN IF r.obs.kind = "probe" THEN [ok |-> Robust(sc0), sig |-> [class |-> "probe", shape |-> shape, noise |-> "-"], dev |-> 0]
+     ELSE IF r.obs.kind # "timers" THEN [ok |-> FALSE, sig |-> [class |-> "kind:" \o r.obs.kind, shape |-> shape, noise |-> "-"], dev |-> -1]
      ELSE
        LET U == r.obs.unit
            esv == Visible(x.sv)
@@ -66,10 +66,13 @@ Judge(r) ==
                   ELSE IF ~BodyOnlyInTime(osv \o SelectSeq(x.sv, LAMBDA y : FALSE), ocl) THEN "P1-body-late"
                   ELSE IF ~(NoByteAfterDeadline(ocl, U * sc0.S, TOL) /\ EndsByDeadline(osv, U * sc0.S, TOL)) THEN "P4-after-session-deadline"
                   ELSE "ok"
-       IN [ok |-> cls = "ok", sig |-> [class |-> cls, shape |-> shape, noise |-> noise]]
+           \* the largest distance (ms) between an observed instant and the specified one: the measured jitter of this run
+           devs == IF ds = 0 /\ dc = 0 THEN {Abs(osv[j].t - U * esv[j].t) : j \in DOMAIN osv} \cup {Abs(ocl[j].t - U * ecl[j].t) : j \in DOMAIN ocl} ELSE {-1}
+           dev == CHOOSE d \in devs : \A d2 \in devs : d2 =< d
+       IN [ok |-> cls = "ok", sig |-> [class |-> cls, shape |-> shape, noise |-> noise], dev |-> dev]
 
 TInit == l = 1 /\ Init           \* the machine's variables are not used here: they stay in their initial state
 TNext == /\ l =< Len(Rec) /\ l' = l + 1 /\ UNCHANGED vars
-         /\ LET j == Judge(Rec[l]) IN PrintT(ToJson([t |-> "VERDICT", id |-> Rec[l].id, ok |-> j.ok, sig |-> j.sig]))
+         /\ LET j == Judge(Rec[l]) IN PrintT(ToJson([t |-> "VERDICT", id |-> Rec[l].id, ok |-> j.ok, sig |-> j.sig, dev |-> j.dev]))
 TSpec == TInit /\ [][TNext]_<<l, vars>>
 =============================================================================
